@@ -73,10 +73,39 @@ struct World {
     bind_held: HashMap<(usize, usize), u64>,
     bind_decision: HashMap<u64, bool>,
     next_src: Option<String>,
+    sink_blocked: [bool; 2],
+    cancelled: bool,
+    /// accepted non-empty writes / datagrams, and Push / Datagram frames that reached the wire, per endpoint
+    acc_push: [u64; 2],
+    acc_dgram: [u64; 2],
+    /// a transport fault (error, end, peer Close) was given to this endpoint
+    ep_faulted: [bool; 2],
+    wire_push: [u64; 2],
+    wire_dgram: [u64; 2],
+    /// flow id -> pairing port (from the latest Connect with that id), and handles whose peer's Reset arrived
+    fid_port: HashMap<u32, u64>,
+    peer_reset: std::collections::HashSet<(usize, usize)>,
     answered: std::collections::HashSet<(usize, usize)>,
 }
 
 const NAMES: [&str; 2] = ["A", "B"];
+
+/// Validity under PROTOCOL.md (same rules as the reference codec of the codec harness).
+fn frame_valid(hexs: &str) -> bool {
+    let Some(b) = unhex(hexs) else { return false };
+    if b.len() < 5 || !(b[0] >> 4 == 7 || b[0] >> 4 == 0) {
+        return false;
+    }
+    let p = &b[5..];
+    match b[0] & 15 {
+        0 => p.len() >= 6,
+        1 => p.len() >= 4,
+        2 | 3 | 4 => true,
+        5 => p.len() >= 3 && (p[0] == 1 || p[0] == 3),
+        6 => p.len() >= 3 && p.len() - 3 >= usize::from(p[0]),
+        _ => false,
+    }
+}
 
 fn parse_frame(hexs: &str) -> Option<(u8, u32, Vec<u8>)> {
     let b = unhex(hexs)?;
@@ -114,6 +143,15 @@ impl World {
             bind_held: HashMap::new(),
             bind_decision: HashMap::new(),
             next_src: None,
+            sink_blocked: [false, false],
+            cancelled: false,
+            acc_push: [0, 0],
+            acc_dgram: [0, 0],
+            ep_faulted: [false, false],
+            wire_push: [0, 0],
+            wire_dgram: [0, 0],
+            fid_port: HashMap::new(),
+            peer_reset: std::collections::HashSet::new(),
             answered: std::collections::HashSet::new(),
         };
         for v in &mut w.view {
@@ -175,6 +213,11 @@ impl World {
                 self.view[e].opens.insert(req, (unhex(t[2]).unwrap(), port));
                 self.open_ports.insert(port, (e, req));
             }
+            ("cancelopen", ["unit"]) => {
+                let req: u64 = t[1].parse().unwrap();
+                self.view[e].opens.remove(&req);
+                self.cancelled = true;
+            }
             ("accept", ["stream", h, host, port]) => {
                 let h: usize = h.parse().unwrap();
                 let port: u64 = port.parse().unwrap();
@@ -209,16 +252,25 @@ impl World {
                 match r {
                     ["wrote", n] => {
                         let n: usize = n.parse().unwrap();
+                        if clean && !self.reused && !data.is_empty() && self.peer_reset.contains(&(e, h)) {
+                            self.fail("C05", "write-after-peer-abort", format!("a write on {}#{h} was accepted ({n} bytes) after the peer's Reset of that stream had been processed", NAMES[e]));
+                        }
                         if n != data.len() {
                             self.fail("C02", "short-write", format!("write of {} bytes reported {n}", data.len()));
                         }
+                        if n > 0 { self.acc_push[e] += 1; }
                         self.view[e].handles[h].written.extend_from_slice(&data[..n.min(data.len())]);
                         self.view[e].handles[h].pending_write = None;
                         if self.view[e].handles[h].shutdown && !data.is_empty() {
                             self.fail("C05", "write-after-shutdown", "a write after local shutdown was accepted".into());
                         }
                     }
-                    ["pending"] => self.view[e].handles[h].pending_write = Some(data),
+                    ["pending"] => {
+                        if clean && !self.reused && self.peer_reset.contains(&(e, h)) {
+                            self.fail("C05", "writer-parked-after-peer-abort", format!("a write on {}#{h} is left pending although the peer's Reset of that stream had been processed", NAMES[e]));
+                        }
+                        self.view[e].handles[h].pending_write = Some(data);
+                    }
                     ["brokenpipe"] => {
                         self.view[e].handles[h].broken = true;
                         self.view[e].handles[h].pending_write = None;
@@ -239,6 +291,13 @@ impl World {
                     }
                     ["eof"] => {
                         self.view[e].handles[h].eof = true;
+                        // end-of-stream caused by the peer's abort proves that its Reset has been processed
+                        // here: from now on writes on this handle must fail
+                        if let Some((pe, ph)) = self.peer_handle(e, h) {
+                            if self.aborted.get(&(pe, ph)) == Some(&true) {
+                                self.peer_reset.insert((e, h));
+                            }
+                        }
                         self.check_eof(e, h);
                     }
                     _ => {}
@@ -260,6 +319,7 @@ impl World {
                 self.aborted.entry((e, h)).or_insert(false);
             }
             ("dgsend", ["unit"]) => {
+                self.acc_dgram[e] += 1;
                 self.view[e].dg_sent.push(format!("{} {} {} {}", t[1], t[2], t[3], t[4]));
             }
             ("dgsend", ["toolong"]) => {
@@ -329,6 +389,7 @@ impl World {
                 if matches!(t[1], "err" | "eof" | "close") {
                     self.view[e].terminated_by = Some(t[1].into());
                     self.faulted = true;
+                    self.ep_faulted[e] = true;
                 }
                 if t[1] == "bin" {
                     match parse_frame(t[2]) {
@@ -354,6 +415,8 @@ impl World {
                 ["wire", m] => {
                     self.wire[e].push_back((*m).to_string());
                     if let Some((op, id, _)) = parse_frame(m) {
+                        if op == 4 { self.wire_push[e] += 1; }
+                        if op == 6 { self.wire_dgram[e] += 1; }
                         if (op == 0 || op == 5) && self.seen_ids.contains(&id) {
                             self.reused = true;
                         }
@@ -369,6 +432,9 @@ impl World {
                             }
                         }
                         if op == 0 {
+                            if let Some((_, _, p)) = parse_frame(m) {
+                                if p.len() >= 6 { self.fid_port.insert(id, u64::from(u16::from_be_bytes([p[4], p[5]]))); }
+                            }
                             // a new Connect from e: accounting for this id restarts
                             self.credit[e].remove(&id);
                             if id == 0 {
@@ -377,7 +443,17 @@ impl World {
                         }
                     }
                 }
-                ["wclose"] => self.wire[e].push_back("close".into()),
+                ["wclose"] => {
+                    self.wire[e].push_back("close".into());
+                    // a local drop with a healthy transport: everything queued before the drop must have
+                    // been transmitted before this Close
+                    if self.view[e].terminated_by.as_deref() == Some("dropmux") && !self.injected && !self.ep_faulted[e] {
+                        if self.wire_push[e] < self.acc_push[e] || self.wire_dgram[e] < self.acc_dgram[e] {
+                            let msg = format!("endpoint {} closed the WebSocket after a local drop with {} of {} accepted writes and {} of {} accepted datagrams transmitted", NAMES[e], self.wire_push[e], self.acc_push[e], self.wire_dgram[e], self.acc_dgram[e]);
+                            self.fail("C08", "drop-loses-queued-frames", msg);
+                        }
+                    }
+                }
                 ["opendone", req, "ok", h] => {
                     let req: u64 = req.parse().unwrap();
                     let h: usize = h.parse().unwrap();
@@ -431,8 +507,19 @@ impl World {
                 }
                 ["exit", r] => {
                     self.view[e].exited = true;
+                    if t[0] == "deliver" && t.get(1) == Some(&"bin") && t.get(2).and_then(|h| parse_frame(h)).is_some_and(|f| f.0 == 6)
+                        && self.view[e].terminated_by.is_none() {
+                        // the datagram was sent by the peer endpoint through `send_datagram` or injected well-formed
+                        let from_peer = self.view[1 - e].dg_sent.iter().any(|_| true) || self.injected;
+                        if from_peer {
+                            self.fail("C11", "dgram-ends-connection", format!("endpoint {} ended its connection ({r}) on receiving the datagram frame {}", NAMES[e], t[2]));
+                        }
+                    }
                     if self.view[e].terminated_by.is_none() && !self.injected {
                         self.fail("C10", "unexpected-exit", format!("endpoint {} task ended ({r}) without a terminating stimulus", NAMES[e]));
+                    } else if self.view[e].terminated_by.is_none() && t[0] == "deliver" && t.get(1) == Some(&"bin")
+                        && t.get(2).is_some_and(|h| frame_valid(h)) {
+                        self.fail("C10", "wellformed-frame-ends-connection", format!("endpoint {} task ended ({r}) on the well-formed frame {}", NAMES[e], t[2]));
                     }
                 }
                 _ => {}
@@ -602,7 +689,7 @@ fn run_case(r: &mut Rng, focus: Focus, len: usize) -> World {
             Focus::C04 => (40, 30, 0, 2, 0, 8, 1),
             Focus::C05 => (30, 30, 1, 1, 1, 8, 6),
             Focus::C06 | Focus::C07 => (25, 15, 1, 1, 1, 25, 12),
-            Focus::C08 => (25, 20, 8, 4, 6, 10, 5),
+            Focus::C08 => (25, 22, 12, 4, 4, 10, 4),
             Focus::C10 => (25, 15, 25, 3, 3, 10, 4),
             Focus::C11 => (20, 10, 1, 40, 1, 5, 2),
             Focus::C15 => (20, 10, 1, 2, 45, 5, 2),
@@ -651,6 +738,12 @@ fn run_case(r: &mut Rng, focus: Focus, len: usize) -> World {
                 2 => { w.stim(e, &[s("deliver"), s("eof")]); }
                 3 => { w.injected = true; let n = r.range(0, 6) as usize; w.view[e].terminated_by = Some("bad".into()); let mut b = r.bytes(n); if !b.is_empty() { b[0] = 0x79; } w.stim(e, &[s("deliver"), s("bin"), hexd(&b)]); }
                 4 if w.sims[e].pending_futures() == 0 && w.view[e].mux_alive => { w.stim(e, &[s("dropmux")]); }
+                5 | 6 if !matches!(focus, Focus::C10) => {
+                    // back-pressure: the sink stops / resumes accepting messages
+                    if w.sink_blocked[e] && r.chance(1, 2) { w.sink_blocked[e] = false; w.stim(e, &[s("sinkunblock")]); }
+                    else if r.chance(1, 2) { w.sink_blocked[e] = true; w.stim(e, &[s("sinkblock")]); }
+                    else { w.sink_blocked[e] = true; w.stim(e, &[s("sinkgrant"), s(r.range(1, 3))]); }
+                }
                 _ => {
                     if matches!(focus, Focus::C10) {
                         w.injected = true;
@@ -705,6 +798,12 @@ fn run_case(r: &mut Rng, focus: Focus, len: usize) -> World {
                 let hl = match r.below(8) { 0 => 0, 1 => 255, 2 => 300, _ => r.range(1, 10) as usize };
                 // the port is the pairing key: unique per request
                 w.stim(e, &[s("open"), s(req), hexd(&r.bytes(hl)), s(1000 + req)]);
+            } else if matches!(focus, Focus::C10 | Focus::C07 | Focus::C08) && r.chance(1, 6) && !w.view[e].opens.is_empty() {
+                // the application gives up on a pending open request (a timeout around the call)
+                let mut reqs: Vec<u64> = w.view[e].opens.keys().copied().collect();
+                reqs.sort_unstable();
+                let req = *r.pick(&reqs);
+                w.stim(e, &[s("cancelopen"), s(req)]);
             } else {
                 w.stim(e, &[s("accept")]);
             }
@@ -716,8 +815,48 @@ fn run_case(r: &mut Rng, focus: Focus, len: usize) -> World {
             w.stim(e, &[s("dropstream"), s(h)]);
         }
     }
+    if matches!(focus, Focus::C08) && r.chance(1, 3) {
+        backpressure_drop_script(&mut w, r);
+    }
     completion_phase(&mut w, r, focus);
     w
+}
+
+/// A local drop under back-pressure: the sink stops, several messages are queued, the sink accepts a
+/// few of them, the Multiplexor is dropped, the sink opens again. Everything queued before the drop
+/// has to reach the wire, in order, before the close.
+fn backpressure_drop_script(w: &mut World, r: &mut Rng) {
+    let e = r.below(2) as usize;
+    if !w.view[e].mux_alive || w.view[e].exited || w.sims[e].pending_futures() > 0 {
+        return;
+    }
+    w.sink_blocked[e] = true;
+    w.stim(e, &[s("sinkblock")]);
+    let live: Vec<usize> = (0..w.view[e].handles.len()).filter(|&h| w.view[e].handles[h].alive).collect();
+    let n = r.range(2, 5);
+    for k in 0..n {
+        match r.below(3) {
+            0 | 1 if !live.is_empty() => {
+                let h = *r.pick(&live);
+                let hi = &w.view[e].handles[h];
+                let data = hi.pending_write.clone().unwrap_or_else(|| gen_payload(r, 0x40 + k as u8, hi.written.len()));
+                w.stim(e, &[s("write"), s(h), hexd(&data)]);
+            }
+            _ => {
+                let dl = r.range(0, 6) as usize;
+                w.stim(e, &[s("dgsend"), s(r.range(1, 9)), hexd(&r.bytes(2)), s(53), hexd(&r.bytes(dl))]);
+            }
+        }
+    }
+    if r.chance(2, 3) {
+        w.stim(e, &[s("sinkgrant"), s(r.range(1, n))]);
+    }
+    w.stim(e, &[s("dropmux")]);
+    if r.chance(1, 2) {
+        w.stim(e, &[s("sinkgrant"), s(1)]);
+    }
+    w.sink_blocked[e] = false;
+    w.stim(e, &[s("sinkunblock")]);
 }
 
 /// Fair completion: deliver everything in flight, let every reader read to the end and every
@@ -731,6 +870,12 @@ fn completion_phase(w: &mut World, r: &mut Rng, focus: Focus) {
 }
 
 fn fair_completion(w: &mut World, rounds: usize) {
+    for e in 0..2 {
+        if w.sink_blocked[e] {
+            w.sink_blocked[e] = false;
+            w.stim(e, &[s("sinkunblock")]);
+        }
+    }
     for _ in 0..rounds {
         let before = w.steps.len();
         let mut progressed = false;
@@ -863,6 +1008,8 @@ fn replay_lines(lines: &[String]) -> Option<World> {
             w.deliver_next(e);
             continue;
         }
+        if t[0] == "sinkblock" || t[0] == "sinkgrant" { w.sink_blocked[e] = true; }
+        if t[0] == "sinkunblock" { w.sink_blocked[e] = false; }
         let mut toks = vec![t[0].clone()];
         toks.extend_from_slice(&t[2..]);
         if toks[0] == "deliver" && toks.get(1).map(String::as_str) == Some("bin") {
@@ -927,6 +1074,7 @@ fn attribute(line: &str) -> Vec<&'static str> {
     let t: Vec<&str> = line.split_whitespace().collect();
     match t[0] {
         "open" | "accept" => vec!["C07"],
+        "cancelopen" => vec!["C07", "C10"],
         "write" | "writev" => vec!["C02", "C03", "C04", "C05"],
         "read" => vec!["C02", "C03", "C04", "C05"],
         "wstate" => vec!["C04"],
@@ -934,7 +1082,7 @@ fn attribute(line: &str) -> Vec<&'static str> {
         "dropstream" => vec!["C06"],
         "dgsend" | "dgrecv" => vec!["C11"],
         "bindreq" | "bindnext" | "bindreply" | "binddrop" => vec!["C15"],
-        "dropmux" => vec!["C08"],
+        "dropmux" | "sinkblock" | "sinkunblock" | "sinkgrant" => vec!["C08", "C02"],
         "deliver" => match t.get(2).copied() {
             Some("bin") => match t.get(3).and_then(|h| parse_frame(h)).map(|f| f.0) {
                 Some(0) => vec!["C07", "C10"],
@@ -1056,7 +1204,7 @@ fn main() {
             Ok(w) => handle_world(w, "random", &mut rep, &mut drv),
             Err(p) => rep.fail(FailKind::Impl, "harness-panic", &format!("panic outside a stimulus: {p}"), json!({})),
         }
-        if rep.failures.len() >= 6 { break; }
+        if rep.failures.iter().filter(|f| f["kind"] == "impl").count() >= 4 { break; }
     }
     if let Some(d) = &drv { rep.notes.push(format!("driver lines: {}", d.lines)); }
     rep.finish(&args);
